@@ -482,6 +482,12 @@ pub fn extreme_plans(rng: &mut Rng, cast: &Cast) -> Vec<Plan> {
         mk(vec![single("r0", &vc[0].0, 0, true), single("u0", &va[0].0, 1, false)], &["c_alice", "a_alice"], rng),
         mk(vec![single("u0", &va[0].0, 0, false), single("r0", &vc[0].0, 1, true)], &["a_alice", "c_alice"], rng),
         mk(vec![pred("p0", 0), single("u0", &vc[0].0, 1, false)], &["a_alice", "c_alice"], rng),
+        // a range: two predicates on one attribute of one credential
+        mk(vec![pred("p0", 0), RefPlan { referent: "p1".into(), kind: Kind::Pred(pn.clone(), "LE", pv + 4), cred: Some(0), revealed: false, restrictions: None, non_revoked: None }], &["a_alice"], rng),
+        // the same attribute name asked twice, answered from two credentials of one definition / of two definitions over one schema
+        mk(vec![single("n0", &va[0].0, 0, true), single("n1", &va[0].0, 1, true)], &["a_alice", "a2_alice"], rng),
+        mk(vec![single("n0", &va[0].0, 0, true), single("n1", &va[0].0, 1, true)], &["a_alice", "b_alice"], rng),
+        mk(vec![single("n0", &va[0].0, 0, true), single("n1", &va[0].0, 1, false)], &["b_alice", "a_alice"], rng),
     ]
 }
 
@@ -589,7 +595,20 @@ pub fn gen_honest_plan(rng: &mut Rng, cast: &Cast, w3c: bool, with_rev: bool) ->
                 rp.restrictions = Some(true_restrictions(rng, cast, held, &revealed_pairs));
             }
             first = false;
+            // a second predicate on the same attribute (a range), sometimes
+            let range = match &rp.kind {
+                Kind::Pred(n, t, _) if rng.chance(1, 3) => {
+                    let v: i32 = raw.parse().unwrap_or(0);
+                    let (t2, th2) = if t.starts_with('G') { ("LE", v + 1 + rng.below(20) as i32) } else { ("GE", v - 1 - rng.below(20) as i32) };
+                    Some(RefPlan { referent: format!("ref{k}"), kind: Kind::Pred(variant(rng, n), t2, th2), cred: Some(ci), revealed: false, restrictions: None, non_revoked: None })
+                }
+                _ => None,
+            };
             refs.push(rp);
+            if let Some(r2) = range {
+                k += 1;
+                refs.push(r2);
+            }
         }
         if local_nr.is_some() && !local_used && global_nr.is_none() {
             // make sure the interval is demanded somewhere the legacy verifier looks
